@@ -194,18 +194,20 @@ EXT2 = {
 
 # added during the third and fourth seeded rounds (DESIGN.md section 14); appended after EXT2
 EXT3 = {
-    "C02": "Later rounds: make_traceless variants of the graph embeddings.",
+    "C02": "Later rounds: make_traceless variants of the graph embeddings; a beamsplitter embedded on every ordered pair of modes (adjacent or not) and products of two in the interferometer family.",
+    "C08": "Later rounds: backend.state(modes=...) with a deleted / unknown index mixed with an active mode on either side.",
+    "C14": "Later rounds: TDM programs with 10-23 loop variables, daggered gates and expressions of loop variables, run / backend options of TDM programs; operations on modes 10 and 11 of a 12-mode register.",
     "C05": "Later rounds: post-selected measurements on entangled bosonic cat states (spectator judged against the dense Fock reference).",
     "C06": "Later rounds: the rejection sampler of the bosonic simulator on non-Gaussian states (real- and complex-representation cat states, Fock(2), GKP; alone or entangled; either mode; homodyne at 3 angles and heterodyne): every peak the sampler can pick and 44 answered heights per phase-space point locate the acceptance probability; acceptance x proposal density (reconstructed from the arguments of the draws) must be proportional to the Born density; returned value and conditional mixture for the accepted point. Measurements after a mode deletion: every measurement of a menu on a surviving mode of a 3-mode register against the same measurement on a fresh two-mode twin (all simulators, every deleted mode); column order of Result.samples on a 12-mode register.",
     "C07": "Later rounds: GKP states on the Fock simulator.",
     "C09": "Later rounds: the state after reset + re-run must equal a fresh engine's.",
-    "C10": "Later rounds: measured outcomes equal to zero.",
+    "C10": "Later rounds: measured outcomes equal to zero; every sequence of 2-3 gates on one wire over {G(measured), G(0.4), G(free), H(measured)} for five one-parameter families with and without the optimiser; sessions of independent programs (measure / use / unrelated, every order, one by one and as a list) followed by reset() and the user alone (differential against a fresh engine).",
     "C11": "Later rounds: every order of three-mode operations in the merging compilers.",
-    "C12": "Later rounds: squeezers with a phase, Xunitary without a device.",
-    "C15": "Later rounds: observables read after sf.hbar was changed.",
-    "C17": "Later rounds: make_traceless in graph_embed.",
+    "C12": "Later rounds: squeezers with a phase, Xunitary without a device; devices with 3 and 4 signal modes and beamsplitters between non-adjacent / outer signal modes in the quick tier.",
+    "C15": "Later rounds: observables read after sf.hbar was changed; purity() at every hbar.",
+    "C17": "Later rounds: make_traceless in graph_embed; beamsplitters embedded on every ordered pair of modes and their products as mesh inputs.",
     "C18": "Later rounds: falsy measurement settings.",
-    "C20": "Later rounds: parameters updated in place between evaluations.",
+    "C20": "Later rounds: parameters updated in place between evaluations; mean_clicks_by_mode and n_mean at hbar 1 and 0.5.",
 }
 
 
